@@ -12,7 +12,8 @@ from . import c09
 PROPERTY = "C10"
 RULE = ("Cases = (class, matrix): 'bin-und' / 'bin-dir' 0/1 matrices (complete enumeration of labelled graphs/digraphs up to the stated n "
         "plus random), 'sym-w' symmetric weighted matrices (weights k/8 or floats in (0,1]) and 'w-dir' directed weighted matrices, all with "
-        "empty diagonal. For every row of the pair table applicable to the class both routines are called on the same matrix (or on W and "
+        "empty diagonal; a few connections weaker than the rest by 2^-60; 0/1 matrices as float64 / int64 (and bool for the rows that only sum "
+        "entries); layered networks of 130 nodes with 3^40 .. 2^65 shortest paths between two nodes. For every row of the pair table applicable to the class both routines are called on the same matrix (or on W and "
         "binarize(W)) and compared cell by cell (rtol 1e-10, NaN == NaN; a crash on one side only is a failure). Non-trivial = the graph has a "
         "triangle, an unreachable ordered pair or a pair with >= 2 shortest paths, and is neither empty nor complete; distinct by hash of (class, matrix).")
 BOUNDS = {"exhaustive_quick": "graphs n<=5, digraphs n<=4", "exhaustive_thorough": "graphs n<=6, digraphs n<=4 + every 8th n=5", "random_n": "3..12", "rtol": 1e-10}
@@ -71,12 +72,17 @@ RT, AT = 1e-10, 1e-12
 
 _ORDER = ["C"]
 _DTYPE = ["float64"]
+_ROWS = [None]
 
 
 def _pair(ctx, fails, case, name, f1, f2, X1, X2, store=None):
     dt = _DTYPE[0]
     if dt != "float64" and name.startswith("efficiency_wei"):
         dt = "float64"          # efficiency_wei inverts its argument: documented for weights, i.e. floating point
+    if dt == "bool" and not name.startswith("strengths_"):
+        dt = "float64"          # a logical array is a storage type of a 0/1 matrix only for routines that merely count / sum entries
+    if _ROWS[0] is not None and not any(name.startswith(r) for r in _ROWS[0]):
+        return
     o1 = ctx.call(f1, gen.layout(X1.astype(dt), _ORDER[0]))
     o2 = ctx.call(f2, gen.layout(X2.astype(dt), _ORDER[0]))
     if store is not None:
@@ -92,6 +98,7 @@ def _pair(ctx, fails, case, name, f1, f2, X1, X2, store=None):
 def check(case, ctx):
     cls = case["class"]
     _ORDER[0] = case.get("order", "C")
+    _ROWS[0] = case.get("rows")
     binary01 = bool(np.all((np.array(case["W"]) == 0) | (np.array(case["W"]) == 1)))
     _DTYPE[0] = case.get("dtype", "float64") if binary01 else "float64"
     ctx.label("dtype:" + _DTYPE[0])
@@ -165,8 +172,37 @@ def cases(draw, nmax):
         W = A.astype(float)
     else:
         W = draw(gen.weights_for(A, draw(st.sampled_from(["dyadic", "float", "tie"])), directed))
-    return {"class": cls, "W": W, "order": draw(st.sampled_from(gen.ORDERS)), "dtype": draw(st.sampled_from(["int64", "float64"])),
+        if draw(st.integers(0, 2)) == 0:
+            # a few connections weaker than the others by 18 orders of magnitude: still connections for every weight-blind routine
+            pr = [(i, j) for (i, j) in gen.pairs(len(W), directed) if W[i, j] != 0]
+            pick = draw(st.lists(st.integers(0, 2), min_size=len(pr), max_size=len(pr)))
+            for (i, j), b in zip(pr, pick):
+                if b == 0:
+                    W[i, j] *= 2.0 ** -60
+                    if not directed:
+                        W[j, i] = W[i, j]
+    return {"class": cls, "W": W, "order": draw(st.sampled_from(gen.ORDERS)), "dtype": draw(st.sampled_from(["int64", "float64", "bool"])),
             "sandwich": draw(st.integers(0, 2)) == 0}
+
+
+@st.composite
+def layered_cases(draw):
+    """source - L layers of k fully linked nodes - sink: k^L shortest paths between source and sink (beyond 2^63 for 3^40 and 2^64)"""
+    k, L = draw(st.sampled_from([(3, 41), (2, 64), (3, 40), (2, 65), (4, 32)]))
+    directed = draw(st.booleans())
+    n = 2 + k * L
+    A = np.zeros((n, n))
+    layers = [[0]] + [[1 + l * k + q for q in range(k)] for l in range(L)] + [[n - 1]]
+    for a, b in zip(layers, layers[1:]):
+        for u in a:
+            for v in b:
+                A[u, v] = 1
+                if not directed:
+                    A[v, u] = 1
+    if draw(st.booleans()):
+        A = gen.apply_perm(A, draw(gen.perm(n)))
+    return {"class": "bin-dir" if directed else "bin-und", "W": A, "order": draw(st.sampled_from(gen.ORDERS)), "dtype": draw(st.sampled_from(["float64", "int64"])),
+            "sandwich": False, "rows": ["betweenness_wei|bin", "distance_wei|bin", "strengths_"]}
 
 
 _SP = {}
@@ -203,6 +239,7 @@ def units(tier):
         Unit("random", check, strategy=lambda: cases(10), examples=(3000, 80000), shards=(8, 16)),
         Unit("random-n<=14", check, strategy=lambda: cases(14), examples=(600, 20000), shards=(8, 16)),
         Unit("random-n<=30", check, strategy=lambda: cases(30), examples=(40, 800), shards=(8, 16)),
+        Unit("layered-many-shortest-paths", check, strategy=layered_cases, examples=(16, 64), shards=(4, 8)),
     ]
     if tier == "thorough":
         us.append(Unit("sampled-digraphs-n5", check, count=lambda t: _D5.total // 8, cases=_d5, shards=(16, 64),
